@@ -9,6 +9,10 @@
     the real reserved/committed pages of every space and the pages currently granted; every grant must be
     page aligned, inside the space's extent and disjoint from the live grants. An independent Python
     oracle recomputes "counters == pages currently granted" from the grant/release events alone.
+(4) real threads: T threads released by a barrier ask a REAL private BlockPageResource for one block each while its
+    block pool is empty (hx_unit `bpr race`): they meet in alloc_pages_slow_sync (one grows the space, the others are
+    served by its retry branch; yield point before the mutex); reserved == committed == 8 x live blocks is judged at
+    the two quiescent points of every op — the quiescent case of accounting_exact, which is proved for all interleavings.
 """
 import argparse, json, os, random, sys, time
 from concurrent.futures import ThreadPoolExecutor
@@ -24,8 +28,8 @@ PAGE = 4096
 PLANS = ["NoGC", "SemiSpace", "GenCopy", "GenImmix", "MarkSweep", "PageProtect", "Immix", "MarkCompact", "StickyImmix", "ConcurrentImmix"]
 
 META = {
-    "text": "Lean: a page resource shared by any number of threads, one transition per ATOMIC action (reserve_pages, the grant under the acquire_lock, the two counter updates of commit_pages, clear_request, the two fetch_subs of accounting.release, reset); proved for every reachable state, i.e. every interleaving: reserved = granted + pending of every thread, committed = granted + not-yet-subtracted releases, both equal the granted pages at quiescence (accounting_exact*), no counter update underflows (no_underflow), live grants are pairwise disjoint, inside the space and page aligned (granted_disjoint_aligned_in_space); the monotone cursor bump is shown to be a legal page supplier. Tie: a real contiguous MonotonePageResource is diffed exactly against the model on generated histories; GC runs of 10 plans with the event log on are replayed by the Lean monitor (every get_new_pages / release_pages / release_block / reset / reset_cursor / reserve / clear_request event) and the model's counters are compared with the real per-space counters at every `stats`.",
-    "note": "Proof over the model; partial w.r.t. the code (hand transcription tied by sampling). The free-list / block-pool / chunk supplier is abstract (`free` page set: its correctness is C26/C19/C29); discontiguous spaces and the Compressor (needs the unified_ref build) are not run; FreeListPageResource and BlockPageResource are tied through the GC runs only. Trusted: Lean kernel, hx_gc event log (HX_GC_EVENTS.md), mmtk_verif accessors.",
+    "text": "Lean: a page resource shared by any number of threads, one transition per ATOMIC action (reserve_pages, the grant under the acquire_lock, the two counter updates of commit_pages, clear_request, the two fetch_subs of accounting.release, reset); proved for every reachable state, i.e. every interleaving: reserved = granted + pending of every thread, committed = granted + not-yet-subtracted releases, both equal the granted pages at quiescence (accounting_exact*), no counter update underflows (no_underflow), live grants are pairwise disjoint, inside the space and page aligned (granted_disjoint_aligned_in_space); the monotone cursor bump is shown to be a legal page supplier. Tie: a real contiguous MonotonePageResource is diffed exactly against the model on generated histories; T real threads race for blocks of a real private BlockPageResource with an empty pool (slow path + retry branch) and the counters are judged at quiescence; GC runs of 10 plans with the event log on are replayed by the Lean monitor (every get_new_pages / release_pages / release_block / reset / reset_cursor / reserve / clear_request event) and the model's counters are compared with the real per-space counters at every `stats`.",
+    "note": "Proof over the model; partial w.r.t. the code (hand transcription tied by sampling). The free-list / block-pool / chunk supplier is abstract (`free` page set: its correctness is C26/C19/C29); discontiguous spaces and the Compressor (needs the unified_ref build) are not run; FreeListPageResource is tied through the GC runs only, BlockPageResource through the GC runs and the real-thread race (oracle only: the grants of a race are schedule dependent, the counters at quiescence are not). Trusted: Lean kernel, hx_gc event log (HX_GC_EVENTS.md), mmtk_verif accessors.",
     "technique": "Lean 4 proof (inductive invariant over all interleavings of atomic counter steps) + exact unit differential + event-log monitor on real GC runs",
     "category": "proof",
 }
@@ -406,6 +410,66 @@ def check_program(exe, prog):
                   "grants": kinds.get(50, 0), "releases": kinds.get(52, 0) + kinds.get(53, 0) + kinds.get(54, 0) + kinds.get(58, 0)}
 
 
+# ------------------------------------------------------------------------------------------------
+# real-thread race on a private BlockPageResource (hx_unit `bpr race`, harness/src/comp/gcfix/bpr.rs)
+# ------------------------------------------------------------------------------------------------
+
+def bpr_lines(tier, seed):
+    """op lines, grouped per hx_unit process (one page resource per process: 2048 chunks of address range, every
+    round uses one)"""
+    rng = random.Random(f"{seed}/bpr")
+    nproc, nops = (2, 14) if tier == "quick" else (6, 60)
+    groups = []
+    for _ in range(nproc):
+        ls = []
+        for _ in range(nops):
+            t = rng.choice([2, 2, 3, 4, 4, 8, 8, 16])
+            ls.append(f"bpr race {t} {rng.choice([1, 2, 4, 8])} {rng.getrandbits(31)} {rng.choice([0, 0, 25, 50, 100])}")
+        groups.append(ls)
+    return groups
+
+
+def bpr_oracle(line, out):
+    """C28's statement on one answer: every grant is one block of 8 pages, block aligned, inside the space, granted
+    once; at both quiescent points reserved == committed == 8 x (blocks granted and not released)."""
+    if not out.startswith("granted="):
+        return [("bpr:" + out.split()[0].split(":")[0], f"`{line}` answered `{out[:200]}`")]
+    kv = {k: int(v) for k, v in (x.split("=") for x in out.split())}
+    bad = []
+    for f, key in (("failed", "bpr:request-refused"), ("dup", "bpr:block-granted-twice"), ("misaligned", "bpr:grant-unaligned"),
+                   ("outside", "bpr:grant-outside-space"), ("badpages", "bpr:grant-wrong-size")):
+        if kv[f]:
+            bad.append((key, f"`{line}`: {f}={kv[f]} ({out})"))
+    for f, key in (("com_mid", "bpr:committed-ne-granted"), ("res_mid", "bpr:reserved-ne-granted"),
+                   ("com_end", "bpr:committed-ne-granted-after-release"), ("res_end", "bpr:reserved-ne-granted-after-release")):
+        if kv[f]:
+            bad.append((key, f"`{line}`: after {kv['granted']} grants by racing threads ({kv['retry']} served by the retry branch of alloc_pages_slow_sync) "
+                             f"{f}={kv[f]} pages (counter - 8 x live blocks; must be 0): {out}"))
+    return bad
+
+
+def run_bpr(tier, seed, groups=None):
+    exe, err, _ = E.cargo_build("hx_unit")
+    if exe is None:
+        return [("harness-build-failed", f"hx_unit no longer builds: {err[-800:]}", None)], {}
+    viol, st = [], {"ops": 0, "grants": 0, "released": 0, "slow_path_entries": 0, "retry_branch": 0, "threads": {}}
+    for ls in groups or bpr_lines(tier, seed):
+        outs, rc, err_ = E.run_lines(exe, ls, timeout=600, env={"VERIF_PANIC_DETAIL": "1"})
+        outs += [f"crash:rc={rc}"] * (len(ls) - len(outs))
+        for l, o in zip(ls, outs):
+            st["ops"] += 1
+            for k, w in bpr_oracle(l, o):
+                viol.append((k, w, ls[:ls.index(l) + 1]))
+            if o.startswith("granted="):
+                kv = {k: int(v) for k, v in (x.split("=") for x in o.split())}
+                st["grants"] += kv["granted"]; st["released"] += kv["released"]; st["slow_path_entries"] += kv["slow"]; st["retry_branch"] += kv["retry"]
+                t = l.split()[2]
+                st["threads"][t] = st["threads"].get(t, 0) + 1
+    if not viol and st["retry_branch"] == 0:
+        viol.append(("coverage:bpr-retry-branch-not-reached", "no racing request was served by the retry branch of alloc_pages_slow_sync", None))
+    return viol, st
+
+
 def programs(tier, seed):
     rng = random.Random(seed)
     ps = []
@@ -504,6 +568,15 @@ def main(argv=None):
             lines = pg["head"] + [l for ops, gc in pg["rounds"] for l in ops + [gc]]
             violations.append(Violation(key, what + "; observed: " + viol[-1][1][:400], {"hx_gc_program": lines, "defect_index": 0, "tier": a.tier, "check_seed": a.seed},
                                         None, None, found_input=True))
+    bviol, bstat = run_bpr(a.tier, a.seed)
+    for key, what, ls in bviol:
+        if key in seen:
+            continue
+        seen.add(key)
+        violations.append(Violation(key, what, {"bpr_lines": ls} if ls else None, None, None, found_input=ls is not None,
+                                    broken=None if ls is not None else "C28 real-thread race (hx_unit bpr)"))
+    dist["bpr_race"] = bstat
+    evals += bstat.get("ops", 0)
     if not lean["ok"] and not any(v.found_input for v in violations):
         violations.append(Violation("proof-broken", f"Lean obligations no longer check: {lean['failures']}", None, None, None, False,
                                     broken=str([f.get('theorem') or f.get('module') or f['kind'] for f in lean['failures']])))
@@ -524,6 +597,12 @@ def replay(path, exe, spec):
     c = data["case"]
     if isinstance(c, list):
         return U.replay(spec, path)
+    if "bpr_lines" in c:
+        viol, st = run_bpr("quick", 0, [c["bpr_lines"]])
+        for k, w, _ in viol[:8]:
+            print(f"  {k}: {w[:400]}")
+        print("REPLAY:", "violation reproduced" if viol else "no longer reproduces")
+        return 1 if viol else 0
     E.run(["lake", "build", "mmtk_model"], cwd=E.LEAN_DIR)
     pg = defect_programs()[c["defect_index"]][2] if "defect_index" in c else programs(c.get("tier", "quick"), c.get("check_seed", 20260921))[c["index"]]
     viol, st = check_program(exe, pg)
